@@ -222,14 +222,15 @@ def tokens_agree(exp, got, stats=None, rtol=FLOAT_RTOL, ttol=INSTANT_TOL):
 
 
 class Case:
-    __slots__ = ("fn", "request", "expected", "descr", "tags")
+    __slots__ = ("fn", "request", "expected", "descr", "tags", "live")
 
-    def __init__(self, fn, request, expected, descr, tags=()):
+    def __init__(self, fn, request, expected, descr, tags=(), live=None):
         self.fn = fn              # python-level function name (for the histogram)
         self.request = request    # full request line for the model
         self.expected = expected  # canonical response from the implementation
         self.descr = descr        # JSON-able description to replay by hand
         self.tags = tags          # branch tags observed on the implementation side
+        self.live = live          # the actual Python objects passed (for in-state replays)
 
 
 def call(f, *a, **k):
